@@ -728,7 +728,7 @@ func TestC43(t *testing.T) {
 	}
 
 	// ---- random histories (both tiers) ---------------------------------------------------
-	n := r.N(500, 3000)
+	n := r.N(2000, 6000)
 	empty := c43KVState{}
 	for h := 0; h < n; h++ {
 		rg := r.Rand(h)
